@@ -336,6 +336,8 @@ class Explorer(object):
         if isinstance(it, set):
             return list(it)       # the iteration order of the interpreter the repository runs under
         if isinstance(it, dict):
+            if getattr(self.port, 'name', 'py') == 'js':
+                return [[k_, v_] for k_, v_ in it.items()]       # for-of over a Map: its entries (for-in goes through __keys__)
             return list(it.keys())
         raise Undecided('loop over {!r} in abstract exploration'.format(it), node)
 
@@ -401,7 +403,7 @@ class Explorer(object):
             c = self.port.module_consts(self.modname).get(e.id, NOT_HANDLED) if hasattr(self.port, 'module_consts') else NOT_HANDLED
             if c is not NOT_HANDLED:
                 return c
-            if e.id in ('len', 'iter', 'str', 'int', 'bool', 'list', 'tuple', 'isinstance', 'range', 'enumerate', 'min', 'max', 'any', 'all', 'type', 'set', 'Set', 'sorted', 'sum', 'Map', 'dict', 'Array', '__regex__', 'reversed', 'Boolean', 'map', 'filter', 'zip'):
+            if e.id in ('len', 'iter', 'str', 'int', 'bool', 'list', 'tuple', 'isinstance', 'range', 'enumerate', 'min', 'max', 'any', 'all', 'type', 'set', 'Set', 'sorted', 'sum', 'Map', 'dict', 'Array', '__regex__', 'reversed', 'Boolean', 'map', 'filter', 'zip', '__keys__', 'typeof'):
                 return ('builtin', e.id)
             if e.id in getattr(self.port, 'modules', {}) or e.id in ('re', 'os', 'sys', 'math', 'ast', 'JSON', 'Math', 'Object', 'Buffer', 'csv_utils', 'rbql_engine', 'rbql'):
                 return ('global', e.id)
@@ -670,6 +672,9 @@ class Explorer(object):
                 return self.apply(recv[m], args, e)      # a function stored in an object literal
             if recv == ('global', 'Array') and m == 'from' and len(args) == 1 and isinstance(args[0], (list, tuple, set)):
                 return list(args[0])
+            if recv == ('global', 'Object') and m in ('keys', 'values', 'entries') and len(args) == 1 and isinstance(args[0], dict):
+                ks = _js_property_order(args[0])
+                return [str(k_) for k_ in ks] if m == 'keys' else ([args[0][k_] for k_ in ks] if m == 'values' else [[str(k_), args[0][k_]] for k_ in ks])
             if recv == ('global', 'Math') and m in ('max', 'min') and args and all(isinstance(a, (int, float)) and not isinstance(a, bool) for a in args):
                 return max(args) if m == 'max' else min(args)
             # a method of the class under analysis
@@ -753,6 +758,13 @@ class Explorer(object):
         raise Undecided('call of {!r} is outside the abstract interpreter'.format(f), node)
 
     def builtin(self, name, args, node):
+        if name == '__keys__' and len(args) == 1 and isinstance(args[0], dict):
+            return [str(k_) for k_ in _js_property_order(args[0])]          # for (k in obj)
+        if name == 'typeof' and len(args) == 1 and not isinstance(args[0], Abs):
+            v_ = args[0]
+            return 'undefined' if v_ is None and False else ('boolean' if isinstance(v_, bool) else 'number' if isinstance(v_, (int, float)) else 'string' if isinstance(v_, str) else 'object')
+        if name == '__keys__' and len(args) == 1 and isinstance(args[0], (list, tuple)):
+            return [str(i_) for i_ in range(len(args[0]))]
         if name in ('map', 'filter') and len(args) == 2 and isinstance(args[1], (list, tuple, LazyIter)):
             seq = list(self.iterate(args[1], node))
             f = args[0]
@@ -867,6 +879,9 @@ class Explorer(object):
                 return None
             if m == 'pop' and not args and recv:
                 return recv.pop()
+            if m == 'insert' and len(args) == 2 and isinstance(args[0], int) and not isinstance(args[0], bool):
+                recv.insert(args[0], args[1])
+                return None
             if m == 'fill' and len(args) == 1:
                 for i_ in range(len(recv)):
                     recv[i_] = args[0]
@@ -1002,6 +1017,14 @@ class Explorer(object):
             if m == 'has' and len(args) == 1:
                 return args[0] in recv
         raise Undecided('method {} of {!r} is outside the abstract interpreter'.format(m, recv), node)
+
+
+def _js_property_order(d):
+    """own property order of a JS object: integer-like keys ascending, then the other keys in insertion order"""
+    def intlike(k):
+        return (isinstance(k, int) and not isinstance(k, bool) and k >= 0) or (isinstance(k, str) and k.isdigit() and (k == '0' or not k.startswith('0')))
+    ints = sorted([k for k in d if intlike(k)], key=lambda k: int(k))
+    return ints + [k for k in d if not intlike(k)]
 
 
 def _parts(x):
